@@ -1,6 +1,6 @@
 (** C13 - the statements of Properties_C13.v that need more than a reference to one lemma are assembled here. *)
 From Coq Require Import List NArith ZArith Bool Arith Lia ZifyBool ZifyNat ZifyN.
-From V Require Import Common.Bytes Names.Path Names.Model Names.PathProofs Names.Proofs Names.Confine Names.Fold.
+From V Require Import Common.Bytes Names.Path Names.Model Names.PathProofs Names.Proofs Names.Confine Names.Fold Names.Existing.
 Import ListNotations.
 Open Scope N_scope.
 
@@ -124,4 +124,14 @@ Lemma main_C13_casefold_accepted_alike : forall a b,
   cv_m a b -> m_is_valid a = m_is_valid b /\ (m_is_valid b = true -> m_equal_fold a b = true).
 Proof.
   intros a b H. split; [apply cv_m_fq; exact H|]. intro Hb. apply cv_m_equal_fold; assumption.
+Qed.
+
+Lemma main_C13_casefold_legacy_unrepaired_refuted :
+  ~ (forall existing n, Forall (fun e => m_is_fq e = true) existing -> m_is_fq n = true ->
+       (exists e, In e existing /\ m_equal_fold e n = true) -> In (get_existing_name_legacy existing n) existing).
+Proof.
+  intro H. destruct legacy_witness as (Fa & Fb & _ & Hn & _). apply Hn. apply H.
+  - repeat constructor; assumption.
+  - exact Fa.
+  - eexists. split; [left; reflexivity|vm_compute; reflexivity].
 Qed.
